@@ -13,7 +13,7 @@
    [u] is the type universe (method sets): all theorems hold for every universe. *)
 From Eino Require Import Base.Util Model.Types Model.TypeBuilder.
 From Eino Require Import Proofs.TypesLattice Proofs.TypesBuilder Proofs.TypesRun Proofs.TypesInv2 Proofs.TypesMay Proofs.TypesMain.
-From Eino Require Import Proofs.TypesOrder Proofs.TypesAddOrder Proofs.TypesFlow Proofs.TypesFlowX Proofs.TypesLatticeX.
+From Eino Require Import Proofs.TypesOrder Proofs.TypesAddOrder Proofs.TypesFlow Proofs.TypesFlowX Proofs.TypesLatticeX Proofs.TypesNested.
 
 (* the universe of the harness: T1 T2 T3 M = TConc 0..3, I1 I2 = TIface 0 1 *)
 Definition U0 : univ :=
@@ -269,6 +269,45 @@ Proof.
     apply F_start. vm_compute; reflexivity. }
   split; [exact F|]. split; [vm_compute; auto|].
   eapply flow_type_safe; [| | exact F]; [unfold st_b; apply surjective_pairing | vm_compute; reflexivity].
+Qed.
+
+(* Nested graphs (AddGraphNode, round 4).  In the parent a sub graph node is a non-passthrough node
+   declared with the sub graph's input and output type.  The flow relation lets the body of such
+   a node return ANY value of its declared output type and starts a graph with ANY value of its
+   input type; both are discharged for a compiled sub graph: whatever can enter the node's body
+   in the parent is a legitimate input of the sub graph, and whatever the sub graph can hand to
+   its END, in any execution, is a value the node may return in the parent.  So an execution of
+   the nested pair is made of executions that flow_type_safe / flow_sites_safe of the parent and
+   of the sub graph already cover -- at any depth (a sub graph of the sub graph: the same
+   statement one level down), for every discipline and transport. *)
+Theorem nested_graph_contract : forall u orcs i o s ops st oks orcs' i' o' s' ops' sub oks' k n,
+  run_ops u orcs 0 (init_graph i o s) ops = (st, oks) -> g_compiled st = true ->
+  run_ops u orcs' 0 (init_graph i' o' s') ops' = (sub, oks') -> g_compiled sub = true ->
+  get_node st k = Some n -> n_pass n = false ->
+  n_in n = Some (g_in sub) -> n_out n = Some (g_out sub) ->
+  (forall d, flow u st SBody k d -> flow u sub SDone kSTART d) /\
+  (forall d din, flow u sub SArr kEND d -> flow u st SBody k din -> flow u st SOut k d).
+Proof. exact nested_contract_main. Qed.
+Print Assumptions nested_graph_contract.
+
+(* parent START:T1 -> n2 (the sub graph, T1 -> I2) -> END:I2; sub graph START:T1 -> x (T1 -> I2) -> END:I2.
+   A T1 value enters n2's body in the parent; the sub graph can hand a T2 value to its END *)
+Definition ops_sub : list op := [OpNode 2 T1 I2 None None; OpEdge 0 2; OpEdge 2 1; OpCompile]%N.
+Definition st_sub : gstate := fst (run_ops U0 asc 0 (init_graph T1 I2 None) ops_sub).
+Example nested_graph_contract_nonvacuous :
+  g_compiled st_sub = true /\
+  (exists n, get_node st_sub 2%N = Some n /\ n_pass n = false /\ n_in n = Some (g_in st_sub) /\ n_out n = Some (g_out st_sub)) /\
+  flow U0 st_sub SBody 2%N (DVal 0) /\ flow U0 st_sub SArr kEND (DVal 1).
+Proof.
+  assert (B : flow U0 st_sub SBody 2%N (DVal 0)).
+  { apply F_pre_same. eapply F_edge with (s := 0%N); [| vm_compute; auto | vm_compute; reflexivity].
+    apply F_start. vm_compute; reflexivity. }
+  split; [vm_compute; reflexivity|].
+  split; [eexists; split; [vm_compute; reflexivity|]; vm_compute; auto|].
+  split; [exact B|].
+  eapply F_edge with (s := 2%N); [| vm_compute; auto | vm_compute; reflexivity].
+  apply F_post_same.
+  eapply F_body_lambda with (t := I2); [exact B | vm_compute; reflexivity | reflexivity | reflexivity | vm_compute; reflexivity].
 Qed.
 
 (* The run-time checks are exact connection by connection, whatever the execution
